@@ -495,4 +495,24 @@ def wrun (gate : Status → Method → Bool) : WSess → List Input → WSess ×
     let (s2, rest) := wrun gate s1 is
     (s2, evs :: rest)
 
+/-! ### service/rtsp/multicast_proxy.go: the member registry -/
+
+/-- the proxy of a published source: its members (opaque handles: interface values compared with
+    `==`) and whether socket + consumer are running -/
+structure McProxy where
+  members : List Nat
+  running : Bool
+  deriving DecidableEq, Repr, Inhabited
+
+def McProxy.idle : McProxy := { members := [], running := false }
+
+/-- `AddMember`: only the first member is stored, and starts socket and consumer -/
+def McProxy.add (p : McProxy) (m : Nat) : McProxy :=
+  if p.members.isEmpty then { members := [m], running := true } else p
+
+/-- `ReleaseMember`: the member EQUAL to `m` is removed; when none is left the proxy stops -/
+def McProxy.release (p : McProxy) (m : Nat) : McProxy :=
+  let ms := p.members.erase m
+  if ms.isEmpty then { members := [], running := false } else { p with members := ms }
+
 end IpcHub.Rtsp
